@@ -79,6 +79,8 @@ fn ext_type(name: &str) -> Option<&'static str> {
         "Hmac" => "Rs.Hmac",
         // `Box<dyn AesCipher>`
         "AesCipher" => "Rs.AesDyn.Cipher",
+        // `C::Cipher` of `C: AesKind` (aes::Aes128 / Aes192 / Aes256): the keyed block cipher
+        "Cipher" => "Rs.AesBlock",
         _ => return None,
     })
 }
@@ -94,6 +96,8 @@ pub enum ExtKind {
     MutRet,
     /// `&mut self` and one `&mut [u8]` argument, may panic: `f recv buf : Option (Bytes × Self)`
     MutBuf,
+    /// `&self` and one `&mut [u8]` argument, may panic: `f recv buf : Option Bytes`
+    RefBuf,
 }
 
 /// vocabulary: (Lean receiver type, method) → (Lean function, kind, result type)
@@ -105,6 +109,7 @@ fn ext_method(ty: &str, m: &str) -> Option<(&'static str, ExtKind, LTy)> {
         ("Rs.Hmac", "update") => ("Rs.Hmac.update", ExtKind::Mut, LTy::Unit),
         ("Rs.Hmac", "finalize_reset") => ("Rs.Hmac.finalize_reset", ExtKind::MutRet, LTy::Bytes),
         ("Rs.AesDyn.Cipher", "crypt_in_place") => ("Rs.AesDyn.crypt_in_place", ExtKind::MutBuf, LTy::Unit),
+        ("Rs.AesBlock", "encrypt_block") => ("Rs.AesBlock.encrypt_block", ExtKind::RefBuf, LTy::Unit),
         _ => return None,
     })
 }
@@ -149,7 +154,17 @@ pub fn lty(t: &Type, tparams: &[String], self_ty: Option<&LTy>, reg: &Registry, 
             let seg = p.path.segments.last().unwrap();
             let n = seg.ident.to_string();
             let args = generic_args(seg);
+            if p.path.segments.len() == 2 && tparams.contains(&p.path.segments[0].ident.to_string()) {
+                // an associated type of a type parameter: vocabulary by its name
+                return match ext_type(&n) {
+                    Some(e) => LTy::Ext(e.into()),
+                    None => LTy::Unknown,
+                };
+            }
             if p.path.segments.len() == 1 {
+                if n == "u128" {
+                    return LTy::Int("Rs.U128".into());
+                }
                 if let Some(pt) = prim_ty(&n) {
                     return if pt == "Bool" { LTy::Bool } else { LTy::Int(pt.into()) };
                 }
@@ -277,16 +292,37 @@ fn self_lty(im: &ItemImpl, tps: &[String]) -> LTy {
     }
 }
 
+/// Find the free function `fn name`.
+pub fn find_free<'a>(all: &[&'a Item], name: &str) -> Option<&'a ItemFn> {
+    for it in all {
+        if let Item::Fn(f) = it {
+            if f.sig.ident == name && cfg_on(&f.attrs) {
+                return Some(f);
+            }
+        }
+    }
+    None
+}
+
 pub fn fn_sig(im: &ItemImpl, f: &ImplItemFn, reg: &Registry, lreg: &LReg) -> R<LFnSig> {
     let tparams = impl_tparams(&im.generics)?;
-    if !f.sig.generics.params.is_empty() {
+    let tps: Vec<String> = tparams.iter().map(|x| x.0.clone()).collect();
+    let st = self_lty(im, &tps);
+    sig_of(tparams, st, &f.sig, reg, lreg)
+}
+
+pub fn free_sig(f: &ItemFn, reg: &Registry, lreg: &LReg) -> R<LFnSig> {
+    sig_of(vec![], LTy::Unknown, &f.sig, reg, lreg)
+}
+
+fn sig_of(tparams: Vec<(String, Vec<String>)>, st: LTy, fsig: &Signature, reg: &Registry, lreg: &LReg) -> R<LFnSig> {
+    if !fsig.generics.params.is_empty() {
         return Err("generic method".into());
     }
     let tps: Vec<String> = tparams.iter().map(|x| x.0.clone()).collect();
-    let st = self_lty(im, &tps);
     let mut self_kind = SelfKind::None;
     let mut params = vec![];
-    for a in &f.sig.inputs {
+    for a in &fsig.inputs {
         match a {
             FnArg::Receiver(r) => {
                 self_kind = if r.reference.is_none() {
@@ -314,7 +350,7 @@ pub fn fn_sig(im: &ItemImpl, f: &ImplItemFn, reg: &Registry, lreg: &LReg) -> R<L
             }
         }
     }
-    let ret = match &f.sig.output {
+    let ret = match &fsig.output {
         ReturnType::Default => LTy::Unit,
         ReturnType::Type(_, t) => lty(t, &tps, Some(&st), reg, lreg),
     };
@@ -393,6 +429,10 @@ pub fn collect(files: &[(String, Vec<(String, String)>)], asts: &BTreeMap<String
                                     lreg.fns.insert(n.clone(), s);
                                 }
                             }
+                        } else if let Some(f) = find_free(&all, n) {
+                            if let Ok(s) = free_sig(f, reg, &lreg) {
+                                lreg.fns.insert(n.clone(), s);
+                            }
                         }
                     }
                     _ => {}
@@ -451,10 +491,20 @@ pub fn emit(kind: &str, name: &str, all: &[&Item], reg: &Registry, lreg: &LReg, 
             Err("not found".into())
         }
         "lfn" => {
-            let (ty, m) = name.split_once("::").ok_or("lfn needs Type::method")?;
+            let (ty, m) = match name.split_once("::") {
+                Some(x) => x,
+                None => {
+                    // a free function
+                    let f = find_free(all, name).ok_or("not found")?;
+                    let sig = free_sig(f, reg, lreg)?;
+                    let text = LTr::translate(reg, lreg, failed, &format!("Gen.{name}"), LTy::Unknown, &f.sig, &f.block, &sig)?;
+                    return Ok((text, tokens_hash(&quote::quote!(#f)), f.span().start().line, f.span().end().line));
+                }
+            };
             let (im, f) = find_method(all, ty, m).ok_or("not found")?;
             let sig = fn_sig(im, f, reg, lreg)?;
-            let text = LTr::translate(reg, lreg, failed, ty, m, im, f, &sig)?;
+            let tps: Vec<String> = sig.tparams.iter().map(|x| x.0.clone()).collect();
+            let text = LTr::translate(reg, lreg, failed, &format!("Gen.{ty}.{m}"), self_lty(im, &tps), &f.sig, &f.block, &sig)?;
             Ok((text, tokens_hash(&quote::quote!(#f)), f.span().start().line, f.span().end().line))
         }
         k => Err(format!("unknown item kind {k}")),
